@@ -408,7 +408,12 @@ impl Handler<NamespaceRaftReq> for NamespaceActor {
                 Ok(NamespaceRaftResult::None)
             }
             NamespaceRaftReq::Update(v) => {
-                self.set_namespace(v, false, true);
+                // an update of a namespace this actor does not list creates it: whether a namespace that is only
+                // "in use" (by configs / services) is listed yet depends on when the notice of the config or
+                // service index arrives, which differs between the leader's apply, a follower's batch and the
+                // start-up replay of the same log - an update that applied in one order and was dropped in the
+                // other left the nodes (and one node before / after a restart) with different namespaces
+                self.set_namespace(v, false, false);
                 Ok(NamespaceRaftResult::None)
             }
             NamespaceRaftReq::Set(v) => {
